@@ -121,7 +121,9 @@ func ClientIPWithOption(opts ClientIPOptions) ClientIP {
 
 		if trustedProxy {
 			for _, headerName := range opts.RemoteIPHeaders {
-				ip, valid := validateHeader(opts.TrustedCIDRs, ctx.Request.Header.Get(headerName))
+				// several lines of one field name mean the same as one comma-separated list (RFC 7230, section 3.2.2):
+				// a proxy may have appended its entry as a line of its own
+				ip, valid := validateHeader(opts.TrustedCIDRs, strings.Join(ctx.Request.Header.GetAll(headerName), ","))
 				if valid {
 					return ip
 				}
